@@ -797,7 +797,19 @@ def _no_round_after_failed_probe(node):
     return False
 
 
+def _page_not_advanced(node):
+    """Canary: the value finder re-probes a peer that announced more pages but never moves on to the next page."""
+    import ast
+    for n in ast.walk(node):
+        if isinstance(n, ast.AugAssign) and 'peer_pages' in ast.unparse(n.target):
+            n.value = ast.Constant(0)
+            return True
+    return False
+
+
 CANARIES = [
+    dict(name='value-lookup-page-not-advanced', target='lbry.dht.protocol.iterative_find:IterativeValueFinder.send_probe',
+         mutate=_page_not_advanced, job=dict(family='lookup', fn='value_lookup', args=(2,), loop_bound=400, max_depth=80)),
     dict(name='no-search-round-after-failed-probe', target='lbry.dht.protocol.iterative_find:IterativeFinder._schedule_probe',
          mutate=_no_round_after_failed_probe, job=dict(family='lookup', fn='node_lookup', args=(2,), loop_bound=400, max_depth=60)),
     dict(name='store-accepts-any-port', target='lbry.dht.protocol.protocol:KademliaRPC.store', mutate=_store_port_unchecked,
